@@ -65,9 +65,22 @@ def make_filter(names, style="callable"):
         "non_idle_machines": filter_non_idle_machines,
         "non_immediate_operations": filter_non_immediate_operations,
     }
+    def user_keep_last(dispatcher, operations):
+        return operations[-1:]
+
+    def user_longest_only(dispatcher, operations):
+        if not operations:
+            return []
+        mx = max(o.duration for o in operations)
+        return [o for o in operations if o.duration == mx]
+
+    funcs["user_keep_last"] = user_keep_last
+    funcs["user_longest_only"] = user_longest_only
     kinds = ["name", "enum", "callable"]
 
     def one(name, i):
+        if name.startswith("user_"):
+            return funcs[name]  # a user's own filter is always handed over as a callable
         st = style if style in kinds else kinds[i % 3]
         if st == "callable":
             return funcs[name]
@@ -85,18 +98,23 @@ def make_filter(names, style="callable"):
     return create_composite_operation_filter(parts)
 
 
-def gen_filter(rng, positive, p_none=0.35):
+def gen_filter(rng, positive, p_none=0.35, user=0.0):
     """Filter configuration (names, style).  With zero durations the dominated
-    filter is still allowed (its result is then only checked structurally)."""
-    from .model import FILTERS
+    filter is still allowed (its result is then only checked structurally).
+    `user`: probability that a user-defined filter (which may hide the
+    earliest-starting operation) is used or mixed in."""
+    from .model import FILTERS, USER_FILTERS
 
     r = rng.random()
     if r < p_none:
         return [], "callable"
+    pool = list(FILTERS)
+    if user and rng.random() < user:
+        pool = list(USER_FILTERS) + [rng.choice(FILTERS)]
     if r < p_none + 0.35:
-        names = [rng.choice(FILTERS)]
+        names = [rng.choice(pool)]
     else:
-        names = [rng.choice(FILTERS) for _ in range(rng.randint(2, 3))]
+        names = [rng.choice(pool) for _ in range(rng.randint(2, 3))]
     style = rng.choice(["name", "enum", "callable", "mixed", "composite", "generator", "tuple"])
     return names, style
 
@@ -194,6 +212,12 @@ def make_observer(disp, spec, world=None):
         from job_shop_lib.graphs.graph_updaters import ResidualGraphUpdater
 
         graph = graph_builder(spec["builder"])(disp.instance)
+        if spec.get("pre_removed") is not None:
+            # the user dropped a non-operation node (e.g. the source, or a machine they do not care about)
+            # before handing the graph over
+            cand = [n.node_id for n in graph.nodes if n.node_type.name != "OPERATION" and not graph.is_removed(n)]
+            if cand:
+                graph.remove_node(cand[spec["pre_removed"] % len(cand)])
         return ResidualGraphUpdater(
             disp, graph, subscribe=sub,
             remove_completed_machine_nodes=spec.get("rm", True),
@@ -335,6 +359,20 @@ class DWorld:
             owner = owner_of_exception(e, "C05")
             self.lib_error(owner, "query_raised", f"{name}{args} raised {short_exc(e)}", query=name, exc=type(e).__name__)
             raise Foreign(owner, f"{name} raised (known)")
+
+    def fork(self):
+        """The user deep-copies the dispatcher (with everything subscribed to it) mid-history - a rollout /
+        look-ahead / checkpoint - and carries on with the copy."""
+        import copy
+
+        old = self.disp
+        new = copy.deepcopy(old)
+        old_subs = list(old.subscribers)
+        self.observers = [(spec, new.subscribers[old_subs.index(o)] if any(o is x for x in old_subs) else o) for spec, o in self.observers]
+        self.disp = new
+        self.inst = new.instance
+        self.ops_by_id = [op for job in self.inst.jobs for op in job]
+        self.ctx.fault("fork_deepcopy")
 
     def arg_query(self, name, arg):
         """Public queries that take arguments, on seeded arguments.  Returns
@@ -490,7 +528,7 @@ class DWorld:
 
 
 def gen_dispatch_ops(rng, n_ops, *, p_query=0.0, p_invalid=0.0, p_reset=0.0, extra=None, src_av=0.5,
-                     episodes=1, stop_early=0.1, queries=None):
+                     episodes=1, stop_early=0.1, queries=None, p_fork=0.0):
     """Generic op-list generator for dispatcher histories.  `extra`:
     list of (probability, factory(rng)->op)."""
     ops = []
@@ -515,6 +553,10 @@ def gen_dispatch_ops(rng, n_ops, *, p_query=0.0, p_invalid=0.0, p_reset=0.0, ext
                 k = 0
                 continue
             r -= p_reset
+            if r < p_fork:
+                ops.append(["fork"])
+                continue
+            r -= p_fork
             done = False
             for pe, fac in (extra or []):
                 if r < pe:
@@ -609,6 +651,9 @@ class Hooks:
     def on_reset(self, w):
         w.do_reset()
 
+    def on_fork(self, w):
+        """Called after the world switched to a deep copy of its dispatcher: re-bind observer references."""
+
     def extra(self, w, i, op):
         raise ValueError(f"unknown op {op}")
 
@@ -650,6 +695,11 @@ def run_ops(w, ops, hooks):
             hooks.on_reset(w)
             ctx.count("reset")
             ctx.event(i, kind, h64(w.abstract_state()))
+        elif kind == "fork":
+            w.fork()
+            hooks.on_fork(w)
+            ctx.count("fork")
+            ctx.event(i, kind)
         else:
             info = hooks.extra(w, i, op)
             ctx.count(kind)
